@@ -12,7 +12,8 @@ OVERRIDES = {
 }
 RECORD_PARAMS = {"values", "motion", "acc", "acceleration", "values0", "values1", "fas1_smooth", "pvals", "zvals",
                  "series", "new_values", "vals", "y", "fa_spectrum", "a"}
-CPLX_RECORD_PARAMS = {"fas", "stock", "tifq_values", "tifq_vals"}
+CPLX_RECORD_PARAMS = {"fas", "stock", "tifq_values"}
+REAL_2D_PARAMS = {"tifq_vals"}
 DT_PARAMS = {"dt", "step"}
 PERIOD_PARAMS = {"periods", "response_times", "period"}
 SCALAR_PARAMS = {"constant", "xi", "threshold", "ratio", "band", "a_ref", "n_cyc", "cut_off_ratio", "angle",
@@ -38,6 +39,8 @@ def auto_args(I, state, fi, P, flags="cold", skip_self=True, sig_cls="eqsig.sing
                 role = "record"
             elif p in CPLX_RECORD_PARAMS:
                 role = "crecord"
+            elif p in REAL_2D_PARAMS:
+                role = "record2d"
             elif p in DT_PARAMS:
                 role = "dt"
             elif p in PERIOD_PARAMS:
@@ -50,6 +53,8 @@ def auto_args(I, state, fi, P, flags="cold", skip_self=True, sig_cls="eqsig.sing
         elif role == "record":
             args[p] = rec_array(p, n="n")
             nrec += 1
+        elif role == "record2d":
+            args[p] = rec_array(p, shape=(LinExpr("m"), LinExpr("n")))
         elif role == "crecord":
             args[p] = rec_array(p, n="m", dtype="complex", shape=(LinExpr("m"), LinExpr("n")) if p != "fas" else None)
         elif role == "dt":
